@@ -157,6 +157,37 @@ def _interleaved_loads(P, g):
     P.check("B_has_its_own_parameter", len(B._g2o_params) == 1 and len(C._g2o_params or {}) == 0)
 
 
+def _edited_after_load(P, g):
+    """a loaded graph is EDITED IN PLACE (vertex translations, measurements, information entries, the landmark edge's sensor
+    offset) and then exported and re-imported: the file describes the graph as it is now"""
+    fs = install_io(P, g)
+    capture_logs(g)
+    ids = {k: P.int("id_" + k) for k in ("a2", "b2", "a3", "b3", "l2", "l3", "p2")}
+    P.distinct(list(ids.values()))
+    pid = P.int("pid")
+    S = make_specs(P, g, ids, pid)
+    fs.files["f0.g2o"] = "".join(S[nm].text(" ", "\n") for nm in SE3_FILE)
+    G0 = g.Graph.from_g2o("f0.g2o")
+    k = 0
+    for v in G0._vertices:
+        v.pose[0] = P.real("edit%d" % k)
+        k += 1
+    for e in G0._edges:
+        e.estimate[0] = P.real("edit%d" % k)
+        k += 1
+        w = P.real("edit%d" % k)
+        k += 1
+        e.information[0, 1] = w
+        e.information[1, 0] = w
+        if hasattr(e, "offset"):
+            for i in range(3):
+                e.offset[i] = P.real("edit%d" % k)
+                k += 1
+    G0.to_g2o("f1.g2o")
+    G1 = g.Graph.from_g2o("f1.g2o")
+    same_graph(P, g, "edited_cycle", G1, G0)
+
+
 def _programmatic(fam):
     def fn(P, g):
         np = P.np
@@ -250,6 +281,7 @@ def cases(tier):
         Case("roundtrip-se3", _roundtrip(SE3_FILE, False), timeout=20, old_timeout=30, validate=v, feas_timeout_ms=1500, val_tol=1e-9, shards=4),
         Case("roundtrip-se3-custom", _roundtrip(SE3_FILE, True), timeout=20, old_timeout=30, validate=v, feas_timeout_ms=1500, val_tol=1e-9, shards=4),
         Case("roundtrip-se3-rawparam", _roundtrip(SE3_FILE, False, raw_param=True), timeout=20, old_timeout=30, validate=v, feas_timeout_ms=1500, val_tol=1e-9, shards=4),
+        Case("edited-after-load", _edited_after_load, timeout=20, old_timeout=30, validate=v, feas_timeout_ms=1500, val_tol=1e-9, shards=2),
         Case("interleaved-loads", _interleaved_loads, timeout=20, old_timeout=30, validate=v, feas_timeout_ms=1500, val_tol=1e-9, shards=2),
         Case("programmatic-se2", _programmatic("SE2"), timeout=20, old_timeout=30, validate=v, feas_timeout_ms=1500, val_tol=1e-9),
         Case("programmatic-se3", _programmatic("SE3"), timeout=20, old_timeout=30, validate=v, feas_timeout_ms=1500, val_tol=1e-9, shards=2),
